@@ -1,6 +1,7 @@
 package main
 
 import (
+	"regexp"
 	"bytes"
 	"crypto/sha256"
 	"encoding/json"
@@ -33,12 +34,23 @@ type HostSpec struct {
 	Concurrent bool       `json:"concurrent,omitempty"` // real .so only: threads run freely, no baton
 	Procs      int        `json:"procs,omitempty"`      // GOMAXPROCS of the host process (0 = inherited)
 	Preempt    bool       `json:"preempt,omitempty"`    // threads are goroutines of one bubble, preempted inside the export by the world's scheduler
+	Hold       int        `json:"hold,omitempty"`       // host memory model: the last Hold returned strings stay alive and are read again before they are freed
+	ReuseIn    bool       `json:"reuse_in,omitempty"`   // host memory model: one input buffer per host thread, refilled for every call, scribbled over afterwards
+}
+
+// like returns a spec with the same host model (threads, processors, memory
+// model) and other calls.
+func (sp *HostSpec) like(calls []HostCall) *HostSpec {
+	return &HostSpec{Threads: sp.Threads, Calls: calls, Procs: sp.Procs, Hold: sp.Hold, ReuseIn: sp.ReuseIn}
 }
 
 type hostResult struct {
 	Thread int    `json:"thread"`
 	Output []byte `json:"output"`
 	Panic  string `json:"panic,omitempty"`
+	// second reading of the same returned buffer just before the host frees it
+	Late     []byte `json:"late,omitempty"`
+	LateRead bool   `json:"late_read,omitempty"`
 }
 
 func runC16(c *Ctx) error {
@@ -164,6 +176,16 @@ func runC16(c *Ctx) error {
 		}
 	}
 	c.logf("compile entry points: %d programs", ncomp)
+	nargv := envInt("VERIF_C16_ARGV", 1)
+	if thorough {
+		nargv = envInt("VERIF_C16_ARGV", 12)
+	}
+	c.logf("compile argument shapes: %d program(s) x every cell of {subcommand word} x {flag order} x {5 file-flag spellings} x {5 output-flag spellings} x {9 directory values}", nargv)
+	for j := 0; j < nargv; j++ {
+		if err := c16ArgvSweep(c, pool, j); err != nil {
+			return err
+		}
+	}
 	if err := ParallelFor(ncomp, c.Workers, func(i int) error { return c16Compile(c, pool, i, thorough) }); err != nil {
 		return err
 	}
@@ -217,6 +239,12 @@ type fileShape struct {
 }
 
 func fileShapes(r *Rng) fileShape {
+	if NewRng(r.s[0] ^ 0x6e616d656d6178).Chance(1, 12) {
+		// a file name of exactly NAME_MAX bytes: no sibling name derived from it
+		// (name + ".tmp", ".name.swp", name + "~") can exist
+		n := strings.Repeat("n", 251) + ".dsl"
+		return fileShape{name: "name-max", rel: n, real: n}
+	}
 	switch r.Intn(8) {
 	case 6:
 		// a name that is also a shell/glob pattern, next to a file the pattern would match
@@ -385,6 +413,33 @@ func c16FormatOne(c *Ctx, pool *Pool, i int, tag string, seed uint64, in []byte)
 	if !o.TimedOut {
 		if v := checkFormatF(ref, o, sh); v != nil {
 			c.candidate16Format(i, "format-f", v, in, w, &sh, nil)
+		}
+	}
+	// fault: the directory accepts no new entries (somebody else's checkout, a
+	// read-only mount with writable files): creating a temp file, a backup or
+	// a lock fails with EACCES, the file itself stays writable. A run that
+	// reports failure promises nothing; a run that exits 0 must have left
+	// exactly the result (fallback paths of "safe" rewriting).
+	fr := NewRng(SubSeed(seed, "deny-create", 0))
+	if fr.Chance(1, 4) {
+		cfg := s0()
+		cfg.DenyCreate = true
+		wf := &CLIWorld{Argv: fargv, Cwd: sh.cwd, Disk0: disk, Sched: cfg}
+		of, err := c.sc.RunCLI(wf)
+		if err != nil {
+			return nil, err
+		}
+		c.ev.AddRecord(&of.Rec)
+		c.ev.Count("cli_worlds", 1)
+		c.ev.Fire("format_f_directory_accepts_no_new_entries", 1)
+		c.event(fmt.Sprintf("c16fmt|%d%s|f-deny", i, tag), wf.Argv, sh.name, of.Exit, treeSig(of, ""), opSig(of))
+		if !of.TimedOut {
+			if ref.FormatOK && of.Exit != 0 {
+				c.ev.Count("fault_runs_that_reported_failure", 1)
+			} else if v := checkFormatF(ref, of, sh); v != nil {
+				v.msg += " [fault: the directory accepts no new entries, existing files stay writable]"
+				c.candidate16Format(i, "format-f", v, in, wf, &sh, nil)
+			}
 		}
 	}
 	if ref.FormatOK {
@@ -601,6 +656,19 @@ func c16Host(c *Ctx, pool *Pool, i int, n int, realSO bool) error {
 	if i%3 == 2 {
 		spec.Procs = 1 // every thread shares the one processor's caches
 	}
+	var mr *Rng
+	if !realSO {
+		// host memory model, drawn from a stream of its own
+		mr = NewRng(SubSeed(seed, "mem", 0))
+		if mr.Chance(1, 2) {
+			spec.Hold = []int{1, 2, 3, 8, 1000}[mr.Intn(5)]
+			c.ev.Fire("host_holds_earlier_results", 1)
+		}
+		if mr.Chance(1, 2) {
+			spec.ReuseIn = true
+			c.ev.Fire("host_reuses_input_buffer", 1)
+		}
+	}
 	// each simulated host thread has a queue; the scheduler picks whose next call runs
 	var pending []uint64
 	for k := 0; k < n; k++ {
@@ -628,6 +696,31 @@ func c16Host(c *Ctx, pool *Pool, i int, n int, realSO bool) error {
 		if bytes.Contains(in, []byte{0}) || len(in) > 400000 {
 			continue
 		}
+		thread := r.Intn(spec.Threads)
+		if mr != nil && len(spec.Calls) > 0 && mr.Chance(1, 5) {
+			// the user overtypes one character: the same thread submits a text
+			// of the SAME length (same buffer, same address when the host reuses
+			// its input buffer) that differs from its previous one in one
+			// letter or digit
+			prev := spec.Calls[len(spec.Calls)-1]
+			var pos []int
+			for j, ch := range prev.Input {
+				if ch >= 'a' && ch <= 'z' || ch >= '0' && ch <= '9' {
+					pos = append(pos, j)
+				}
+			}
+			if len(pos) > 0 {
+				j := pos[mr.Intn(len(pos))]
+				in = append([]byte{}, prev.Input...)
+				if in[j] >= 'a' {
+					in[j] = 'a' + (in[j]-'a'+1+byte(mr.Intn(24)))%26
+				} else {
+					in[j] = '0' + (in[j]-'0'+1+byte(mr.Intn(8)))%10
+				}
+				thread = prev.Thread
+				c.ev.Fire("host_input_same_length_one_character_overtyped", 1)
+			}
+		}
 		ref, ok := refs[string(in)]
 		if !ok {
 			var err error
@@ -640,12 +733,16 @@ func c16Host(c *Ctx, pool *Pool, i int, n int, realSO bool) error {
 			c.ev.Count("host_inputs_skipped_reference_panics", 1)
 			continue
 		}
-		spec.Calls = append(spec.Calls, HostCall{Thread: r.Intn(spec.Threads), Input: in})
+		spec.Calls = append(spec.Calls, HostCall{Thread: thread, Input: in})
 	}
 	if len(spec.Calls) == 0 {
 		return nil
 	}
 	res, err := runHost(c, spec, realSO)
+	if hc, ok := err.(*hostCrashErr); ok && !realSO {
+		c.candidate16HostCrash(i, spec, hc)
+		return nil
+	}
 	if err != nil {
 		return err
 	}
@@ -665,6 +762,9 @@ func c16Host(c *Ctx, pool *Pool, i int, n int, realSO bool) error {
 	for k, call := range spec.Calls {
 		ref := refs[string(call.Input)]
 		c.ev.Count("host_calls_checked", 1)
+		if res[k].LateRead {
+			c.ev.Count("host_results_read_again_before_free", 1)
+		}
 		if v := checkHostCall(ref, &res[k]); v != nil {
 			c.candidate16Host(i, spec, k, v, realSO)
 		} else if v := c.checkErrorTextCold(ref, call, &res[k], realSO); v != nil {
@@ -772,13 +872,17 @@ func checkHostCall(ref *Resp, got *hostResult) *c16Viol {
 		if !bytes.Equal(got.Output, ref.FormatOut) {
 			return &c16Viol{"return", fmt.Sprintf("FormatPacketDslExport returns %q, the formatter's result is %q", clip(string(got.Output), 160), clip(string(ref.FormatOut), 160)), allDiffLines(ref.FormatOut, got.Output)}
 		}
-		return nil
-	}
-	if !bytes.HasPrefix(got.Output, []byte("Error:")) {
+	} else if !bytes.HasPrefix(got.Output, []byte("Error:")) {
 		return &c16Viol{"no-error-prefix", fmt.Sprintf("FormatPacketDslExport returns %q for a syntax error (no 'Error:' prefix)", clip(string(got.Output), 160)), nil}
+	}
+	if got.LateRead && !bytes.Equal(got.Late, got.Output) {
+		// the caller owns the returned string until it frees it
+		return &c16Viol{lateClass, fmt.Sprintf("the string FormatPacketDslExport returned read %q right after the call and %q when the host read it again before freeing it, after later calls", clip(string(got.Output), 160), clip(string(got.Late), 160)), allDiffLines(got.Output, got.Late)}
 	}
 	return nil
 }
+
+const lateClass = "result-changed-after-return"
 
 func runHost(c *Ctx, spec *HostSpec, realSO bool) ([]hostResult, error) {
 	dir, err := os.MkdirTemp(c.sc.Work, "host")
@@ -832,6 +936,9 @@ func runHost(c *Ctx, spec *HostSpec, realSO bool) ([]hostResult, error) {
 	select {
 	case err := <-done:
 		if err != nil {
+			if crashLooks.MatchString(se.String()) {
+				return nil, &hostCrashErr{fmt.Sprintf("%v: %s", err, clip(firstCrashLine(se.String()), 300))}
+			}
 			return nil, infraf("host process failed: %v\n%s", err, clip(se.String(), 2000))
 		}
 	case <-time.After(5 * time.Minute):
@@ -868,6 +975,99 @@ func runHost(c *Ctx, spec *HostSpec, realSO bool) ([]hostResult, error) {
 	return res, nil
 }
 
+// hostCrashErr: the host process died inside or around a call of the export
+// (memory corruption reported by the C allocator, a Go runtime fatal error, a
+// fatal signal). A C host cannot survive that, and no text was returned.
+type hostCrashErr struct{ msg string }
+
+func (e *hostCrashErr) Error() string { return "host process crashed: " + e.msg }
+
+var crashLooks = regexp.MustCompile(`(?m)^(fatal error: |SIGSEGV|SIGABRT|SIGBUS|free\(\): |double free|munmap_chunk\(\)|malloc\(\): |malloc_consolidate|corrupted |realloc\(\): |unexpected signal|signal arrived during cgo|panic: runtime error: cgo)`)
+
+func firstCrashLine(s string) string {
+	if loc := crashLooks.FindStringIndex(s); loc != nil {
+		rest := s[loc[0]:]
+		if i := strings.IndexByte(rest, '\n'); i >= 0 {
+			return rest[:i]
+		}
+		return rest
+	}
+	return s
+}
+
+// candidate16HostCrash: the simulated host died although the reference
+// formatter handles every text of the history. Confirmed by repetition,
+// minimised by prefix search and by dropping calls.
+func (c *Ctx) candidate16HostCrash(caseIdx int, spec *HostSpec, hc *hostCrashErr) {
+	c.mu.Lock()
+	c.candidates++
+	coarse := "C16|lib|host-crash"
+	if c.sigSeen["coarse:"+coarse] || c.processed >= 40 {
+		c.mu.Unlock()
+		return
+	}
+	c.sigSeen["coarse:"+coarse] = true
+	c.processed++
+	c.mu.Unlock()
+	candMu <- struct{}{}
+	defer func() { <-candMu }()
+	crashes := func(cs []HostCall) string {
+		if len(cs) == 0 {
+			return ""
+		}
+		_, err := runHost(c, spec.like(cs), false)
+		if e, ok := err.(*hostCrashErr); ok {
+			return e.msg
+		}
+		return ""
+	}
+	calls := append([]HostCall(nil), spec.Calls...)
+	if crashes(calls) == "" || crashes(calls) == "" {
+		c.ev.Count("unconfirmed_candidates", 1)
+		c.logf("host crash (history %d: %s) did not recur twice: not reported", caseIdx, hc.msg)
+		c.mu.Lock()
+		delete(c.sigSeen, "coarse:"+coarse)
+		c.mu.Unlock()
+		return
+	}
+	orig := len(calls)
+	// shortest crashing prefix
+	lo, hi := 1, len(calls)
+	for lo < hi {
+		mid := (lo + hi) / 2
+		if crashes(calls[:mid]) != "" {
+			hi = mid
+		} else {
+			lo = mid + 1
+		}
+	}
+	if crashes(calls[:hi]) != "" {
+		calls = calls[:hi]
+	}
+	for n := len(calls) / 2; n >= 1 && len(calls) > 1; n /= 2 {
+		for st := 0; st+n <= len(calls) && len(calls) > 1; {
+			cand := append(append([]HostCall(nil), calls[:st]...), calls[st+n:]...)
+			if crashes(cand) != "" {
+				calls = cand
+			} else {
+				st += n
+			}
+		}
+		if orig-len(calls) > 120 {
+			break
+		}
+	}
+	msg := crashes(calls)
+	if msg == "" {
+		msg = hc.msg
+	}
+	rf := &ReplayFile{Property: "C16", Kind: "host-c16-crash", RunSeed: c.Seed, Case: caseIdx, Host: spec.like(calls),
+		Expect:    map[string]any{"entry": "FormatPacketDslExport", "class": "host-crash"},
+		Original:  map[string]any{"calls": orig},
+		Minimised: map[string]any{"calls": len(calls)}}
+	c.report(coarse, fmt.Sprintf("the host process dies in a history of %d call(s) of FormatPacketDslExport on texts the formatter handles (host keeps %d result(s) alive, reuses its input buffer: %v, frees every returned string exactly once): %s", len(calls), spec.Hold, spec.ReuseIn, msg), nil, rf)
+}
+
 func (c *Ctx) candidate16Host(caseIdx int, spec *HostSpec, k int, v *c16Viol, realSO bool) {
 	c.mu.Lock()
 	c.candidates++
@@ -882,8 +1082,12 @@ func (c *Ctx) candidate16Host(caseIdx int, spec *HostSpec, k int, v *c16Viol, re
 	candMu <- struct{}{}
 	defer func() { <-candMu }()
 	// fails: the LAST call of the history shows the same violation class
+	if v.class == lateClass {
+		c.candidate16HostLate(caseIdx, spec, v)
+		return
+	}
 	fails := func(calls []HostCall) *c16Viol {
-		sp := &HostSpec{Threads: spec.Threads, Calls: calls, Procs: spec.Procs}
+		sp := spec.like(calls)
 		last := calls[len(calls)-1]
 		ref, err := DoFresh(c.sc.Worker, &Req{Op: "format", DSL: last.Input, Sched: s0()}, 1)
 		if err != nil || ref.TimedOut || ref.Crashed != "" || ref.ParsePanic != "" {
@@ -894,6 +1098,9 @@ func (c *Ctx) candidate16Host(caseIdx int, spec *HostSpec, k int, v *c16Viol, re
 			return nil
 		}
 		nv := checkHostCall(ref, &res[len(res)-1])
+		if nv != nil && nv.class == lateClass {
+			nv = nil // the last call's string is freed at once when nothing follows
+		}
 		if nv == nil {
 			nv = c.checkErrorTextCold(ref, last, &res[len(res)-1], realSO)
 		}
@@ -967,11 +1174,84 @@ func (c *Ctx) candidate16Host(caseIdx int, spec *HostSpec, k int, v *c16Viol, re
 	if realSO {
 		kind = "so-c16"
 	}
-	rf := &ReplayFile{Property: "C16", Kind: kind, RunSeed: c.Seed, Case: caseIdx, Host: &HostSpec{Threads: spec.Threads, Calls: calls, Procs: spec.Procs},
+	rf := &ReplayFile{Property: "C16", Kind: kind, RunSeed: c.Seed, Case: caseIdx, Host: spec.like(calls),
 		Expect:    map[string]any{"entry": "FormatPacketDslExport", "class": fv.class},
 		Original:  map[string]any{"calls": orig},
 		Minimised: map[string]any{"calls": len(calls), "last_input_bytes": len(smallIn)}}
 	c.report("C16|lib|"+fv.class, fv.msg+fmt.Sprintf(" [history of %d call(s), last input %q]", len(calls), clip(string(smallIn), 120)), fv.diffs, rf)
+}
+
+// lateFails runs a history and returns the first call whose returned string
+// changed between the host's two readings.
+func (c *Ctx) lateFails(sp *HostSpec) (int, *c16Viol) {
+	res, err := runHost(c, sp, false)
+	if err != nil || res == nil {
+		return -1, nil
+	}
+	for k := range res {
+		if res[k].Panic == "" && res[k].LateRead && !bytes.Equal(res[k].Late, res[k].Output) {
+			return k, &c16Viol{lateClass, fmt.Sprintf("the string FormatPacketDslExport returned for call %d read %q right after the call and %q when the host read it again before freeing it, after later calls", k, clip(string(res[k].Output), 160), clip(string(res[k].Late), 160)), allDiffLines(res[k].Output, res[k].Late)}
+		}
+	}
+	return -1, nil
+}
+
+// candidate16HostLate confirms and minimises a history in which a returned
+// string changed while the host still owned it: any call of the history may be
+// the victim, so calls are dropped anywhere (pairs first, then halves, then
+// single calls).
+func (c *Ctx) candidate16HostLate(caseIdx int, spec *HostSpec, v *c16Viol) {
+	calls := append([]HostCall(nil), spec.Calls...)
+	fails := func(cs []HostCall) *c16Viol {
+		if len(cs) == 0 {
+			return nil
+		}
+		_, nv := c.lateFails(spec.like(cs))
+		return nv
+	}
+	if fails(calls) == nil {
+		c.ev.Count("unconfirmed_candidates", 1)
+		c.logf("host candidate (history %d, %s) did not reproduce: not reported", caseIdx, v.class)
+		c.mu.Lock()
+		delete(c.sigSeen, "coarse:C16|lib|"+v.class)
+		c.mu.Unlock()
+		return
+	}
+	orig := len(calls)
+	if k, _ := c.lateFails(spec.like(calls)); k >= 0 {
+		// victim followed by one later call, then by everything after it
+		for j, tries := k+1, 0; j < len(calls) && tries < 30; j, tries = j+1, tries+1 {
+			if cand := []HostCall{calls[k], calls[j]}; fails(cand) != nil {
+				calls = cand
+				break
+			}
+		}
+		if len(calls) > 2 && fails(calls[k:]) != nil {
+			calls = calls[k:]
+		}
+	}
+	for n := len(calls) / 2; n >= 1 && len(calls) > 2; n /= 2 {
+		for st := 0; st+n <= len(calls) && len(calls) > 2; {
+			cand := append(append([]HostCall(nil), calls[:st]...), calls[st+n:]...)
+			if fails(cand) != nil {
+				calls = cand
+			} else {
+				st += n
+			}
+		}
+		if orig-len(calls) > 80 {
+			break
+		}
+	}
+	fv := fails(calls)
+	if fv == nil {
+		fv = v
+	}
+	rf := &ReplayFile{Property: "C16", Kind: "host-c16-late", RunSeed: c.Seed, Case: caseIdx, Host: spec.like(calls),
+		Expect:    map[string]any{"entry": "FormatPacketDslExport", "class": fv.class},
+		Original:  map[string]any{"calls": orig},
+		Minimised: map[string]any{"calls": len(calls)}}
+	c.report("C16|lib|"+fv.class, fv.msg+fmt.Sprintf(" [history of %d call(s), host keeps %d result(s) alive, reuses its input buffer: %v]", len(calls), spec.Hold, spec.ReuseIn), fv.diffs, rf)
 }
 
 // ---- compile ----
@@ -990,6 +1270,25 @@ type compileCase struct {
 	eq       bool // --flag=value / -f=value forms
 	fileLast bool // the -f flag after the output flags
 	repeat   bool // the first output flag given twice
+	// argv-shape sweep: explicit spelling of the file flag and of the output
+	// flags (0 = derived from long/eq/attached as above; 1 "-f v", 2 "-fv",
+	// 3 "-f=v", 4 "--file v", 5 "--file=v")
+	fileSpell, flagSpell int
+}
+
+func spellFlag(short, long, value string, mode int) []string {
+	switch mode {
+	case 1:
+		return []string{short, value}
+	case 2:
+		return []string{short + value}
+	case 3:
+		return []string{short + "=" + value}
+	case 4:
+		return []string{long, value}
+	default:
+		return []string{long + "=" + value}
+	}
 }
 
 func (cc *compileCase) spelled(t string) string {
@@ -1026,7 +1325,9 @@ func (cc *compileCase) argv() []string {
 		return []string{name, value}
 	}
 	var file []string
-	if cc.long {
+	if cc.fileSpell > 0 {
+		file = spellFlag("-f", "--file", "in.dsl", cc.fileSpell)
+	} else if cc.long {
 		file = flag("--file", "in.dsl")
 	} else {
 		file = flag("-f", "in.dsl")
@@ -1042,6 +1343,10 @@ func (cc *compileCase) argv() []string {
 		if cc.repeat && k == 0 {
 			// a repeated flag: the last value counts, the first directory must stay untouched
 			argv = append(argv, flag(name, pre+"overridden_"+t)...)
+		}
+		if cc.flagSpell > 0 {
+			argv = append(argv, spellFlag(TargetFlagShort[t], TargetFlagLong[t], pre+cc.spelled(t), cc.flagSpell)...)
+			continue
 		}
 		argv = append(argv, flag(name, pre+cc.spelled(t))...)
 	}
@@ -1313,6 +1618,76 @@ func c16Compile(c *Ctx, pool *Pool, i int, thorough bool) error {
 		}
 	}
 	return nil
+}
+
+// c16ArgvSweep: the argument handling is a product space (subcommand word or
+// not, spelling of the file flag, spelling of the output flag, flag order,
+// shape of the directory value), and argument rewriting bugs live in single
+// cells of it. One small program goes through EVERY cell; the target rotates.
+func c16ArgvSweep(c *Ctx, pool *Pool, j int) error {
+	seed := SubSeed(c.Seed, "c16argv", j)
+	prog := GenProgSized(seed, false)
+	text := prog.Render()
+	refs := map[string]*Resp{}
+	for _, t := range AllTargets {
+		ref, err := pool.Do(&Req{Op: "gen", DSL: []byte(text), History: []string{t}, Sched: s0(), WantBytes: true})
+		if err != nil {
+			return err
+		}
+		if validity(ref) != "OK" || ref.Steps[0].Panic != "" || ref.Steps[0].Err != "" {
+			continue
+		}
+		refs[t] = ref
+	}
+	if len(refs) == 0 {
+		return nil
+	}
+	values := []string{"out/x", "format", "compile", "help", "completion", "-dash", "out dir", "--file", "-f"}
+	type cell struct {
+		sub, fileLast      bool
+		fs, ts, vi, target int
+	}
+	var cells []cell
+	n := 0
+	for _, sub := range []bool{false, true} {
+		for _, fl := range []bool{false, true} {
+			for fs := 1; fs <= 5; fs++ {
+				for ts := 1; ts <= 5; ts++ {
+					for vi := range values {
+						cells = append(cells, cell{sub, fl, fs, ts, vi, n % len(AllTargets)})
+						n++
+					}
+				}
+			}
+		}
+	}
+	return ParallelFor(len(cells), c.Workers, func(k int) error {
+		ce := cells[k]
+		t := AllTargets[ce.target]
+		ref := refs[t]
+		if ref == nil {
+			return nil
+		}
+		cc := &compileCase{targets: []string{t}, sub: ce.sub, fileLast: ce.fileLast, fileSpell: ce.fs, flagSpell: ce.ts, dirs: map[string]string{t: values[ce.vi]}, spell: map[string]string{}}
+		disk := append([]DiskEntry{{Path: "in.dsl", Kind: "file", Data: []byte(text)}}, unrelated...)
+		w := &CLIWorld{Argv: cc.argv(), Disk0: disk, Sched: s0()}
+		o, err := c.sc.RunCLI(w)
+		if err != nil {
+			return err
+		}
+		c.ev.AddRecord(&o.Rec)
+		c.ev.Count("cli_worlds", 1)
+		c.ev.Count("argv_shape_cells", 1)
+		if o.TimedOut {
+			return nil
+		}
+		c.event(fmt.Sprintf("c16argv|%d|%d", j, k), w.Argv, o.Exit, treeSig(o, ""), opSig(o))
+		c.ev.MarkDistinct(fmt.Sprintf("argv|%x|%d", seed, k))
+		if v := checkCompile(ref, o, cc); v != nil {
+			c.candidate16Compile(1000000+j, prog, cc, disk, v, "")
+		}
+		return nil
+	})
 }
 
 func sortedFileNames(m map[string]FileOut) []string {
